@@ -1,4 +1,4 @@
 Require Import QtlVerif.FuncCleanupDefs QtlVerif.SafetyDefs.
 Require Extraction.
 Require Import ExtrOcamlBasic.
-Extraction "safety_model.ml" parse_pattern_c format_c format_pattern_c fmt_bound prop_c14_pattern_b pretty_seq_c type_letter_c env_of_raw format_raw_c prop_c14_raw_b pretty_seq_raw_c.
+Extraction "safety_model.ml" parse_pattern_c format_c format_pattern_c fmt_bound prop_c14_pattern_b pretty_seq_c type_letter_c env_of_raw format_raw_c prop_c14_raw_b pretty_seq_raw_c strip_sgr configure_seq_raw_c.
